@@ -145,7 +145,7 @@ class ExecMixin(object):
         if isinstance(v, VQ):
             self.oblige(st, kind, v, node)
             if assume_after:
-                st.qf.append(QFact(v.lo, v.hi, v.body, kind))
+                st.qf.append(QFact(v.lo, v.hi, v.body, kind, v.sort, v.guard))
             return
         g = self.truth(v, st)
         self.oblige(st, kind, g, node)
@@ -159,9 +159,9 @@ class ExecMixin(object):
     def assume_value(self, st, v):
         if isinstance(v, VQconj):
             st.assume(v.plain)
-            st.qf.append(QFact(v.q.lo, v.q.hi, v.q.body, "assumed"))
+            st.qf.append(QFact(v.q.lo, v.q.hi, v.q.body, "assumed", v.q.sort, v.q.guard))
         elif isinstance(v, VQ):
-            st.qf.append(QFact(v.lo, v.hi, v.body, "assumed"))
+            st.qf.append(QFact(v.lo, v.hi, v.body, "assumed", v.sort, v.guard))
         else:
             st.assume(self.truth(v, st))
 
@@ -209,6 +209,8 @@ class ExecMixin(object):
             idx = self.ev(t.slice, st)
             if isinstance(base, VRef):
                 cell = st.heap[base.oid]
+                if isinstance(cell, HOpaque):
+                    return     # container the contract does not speak about
                 if isinstance(cell, HDict):
                     if cell.items is not None:
                         if not is_lit_str(idx):
@@ -218,9 +220,16 @@ class ExecMixin(object):
                         st.heap[base.oid] = HDict(items=items)
                     else:
                         k = self.want_str(idx, st, node)
-                        st.heap[base.oid] = HDict(cell.ek, z3.Store(cell.keys, k, True),
-                                                  z3.Store(cell.vals, k, self.coerce(v, cell.ek, node)),
-                                                  default=cell.default)
+                        size = None
+                        if cell.size is not None:
+                            size = z3.If(z3.Select(cell.keys, k), cell.size, cell.size + 1)
+                        if isinstance(cell.ek, tuple):
+                            comps = self.tuple_components(v, cell.ek, st, node)
+                            vals = [z3.Store(a, k, c) for a, c in zip(cell.vals, comps)]
+                        else:
+                            vals = z3.Store(cell.vals, k, self.coerce(v, cell.ek, node))
+                        st.heap[base.oid] = HDict(cell.ek, z3.Store(cell.keys, k, True), vals,
+                                                  default=cell.default, size=size)
                     return
                 if isinstance(cell, HCList):
                     k = self.conc(idx)
@@ -363,7 +372,13 @@ class ExecMixin(object):
 
     def st_For(self, stmt, st):
         spec, ordn = self.loop_spec(stmt)
-        it = self.ev(stmt.iter, st)
+        enum = False
+        if isinstance(stmt.iter, ast.Call) and isinstance(stmt.iter.func, ast.Name) and stmt.iter.func.id == "enumerate" \
+                and len(stmt.iter.args) == 1:
+            it = self.ev(stmt.iter.args[0], st)
+            enum = True
+        else:
+            it = self.ev(stmt.iter, st)
         # static iteration: unroll
         items = None
         if isinstance(it, VTuple) and not (it.items and is_lit_str(it.items[0]) and it.items[0].e.as_string() == "$range"):
@@ -377,7 +392,9 @@ class ExecMixin(object):
         if items is not None and spec is None:
             cur = [st]
             outs = []
-            for x in items:
+            for xi, x in enumerate(items):
+                if enum:
+                    x = VTuple([VInt(xi), x])
                 nxt = []
                 for s in cur:
                     self.assign(stmt.target, x, s, stmt)
@@ -423,6 +440,9 @@ class ExecMixin(object):
         else:
             raise OutOfSubset("iteration over %r" % (it,), stmt)
         idx = spec.get("index", "_k%d" % ordn)
+        if enum:
+            elem0 = elem
+            elem = lambda k: VTuple([VInt(k), elem0(k)])
         return self.cut_loop(stmt, st, spec, ordn, idx=idx, n=n, elem=elem, seqval=it)
 
     def st_While(self, stmt, st):
@@ -500,8 +520,7 @@ class ExecMixin(object):
                 return HObj("file", f)
             return HObj(cell.cls, dict((k, self.fresh_like(v, st, k)) for k, v in cell.f.items()))
         if isinstance(cell, HDict) and cell.items is None:
-            return HDict(cell.ek, z3.Array(fresh_name(nm + "_keys"), StrS, BoolS),
-                         z3.Array(fresh_name(nm + "_vals"), StrS, SORTS[cell.ek]), default=cell.default)
+            return self.fresh_dict(cell.ek, nm, st, cell.default, cell.size is not None)
         raise OutOfSubset("cannot havoc cell %r" % (cell,))
 
     def merge_at_loop(self, stmt, states):
@@ -581,6 +600,40 @@ class ExecMixin(object):
                     all(self.same_val(a.items[k], b.items[k]) for k in a.items)
             return a.keys.eq(b.keys) and a.vals.eq(b.vals)
         return a is b
+
+    def fresh_dict(self, ek, nm, st, default=False, sized=False):
+        keys = z3.Array(fresh_name(nm + "_keys"), StrS, BoolS)
+        if isinstance(ek, tuple):
+            vals = [z3.Array(fresh_name("%s_vals%d" % (nm, i)), StrS, SORTS[k]) for i, k in enumerate(ek[1:])]
+        else:
+            vals = z3.Array(fresh_name(nm + "_vals"), StrS, SORTS[ek])
+        size = None
+        if sized:
+            size = z3.Int(fresh_name(nm + "_size"))
+            st.assume(size >= 0)
+        return HDict(ek, keys, vals, default=default, size=size)
+
+    def tuple_components(self, v, ek, st, node):
+        if not isinstance(v, VTuple) or len(v.items) != len(ek) - 1:
+            raise OutOfSubset("storing %r into dict of %r" % (v, ek), node)
+        out = []
+        for x, k in zip(v.items, ek[1:]):
+            if k == "liststr":
+                out.append(self.list_id(x, st, node))
+            else:
+                out.append(self.coerce(x, k, node))
+        return out
+
+    def list_id(self, x, st, node):
+        """an immutable symbolic list value for a heap list stored inside a dict"""
+        if isinstance(x, VOpt):
+            x = x.val
+        if not isinstance(x, VRef):
+            raise OutOfSubset("expected a list, got %r" % (x,), node)
+        c = self.as_hlist(st.heap[x.oid])
+        lid = z3.Int(fresh_name("listid"))
+        st.assume(z3.And(SL_LEN(lid) == c.n, SL_ARR(lid) == c.arr))
+        return lid
 
     def cut_loop(self, stmt, st, spec, ordn, idx=None, n=None, elem=None, seqval=None):
         invs = spec.get("inv", [])
